@@ -54,6 +54,14 @@ func init() {
 		json.Unmarshal(raw, &cs)
 		return c04Pair(cs.D1, cs.D2, cs.V1, cs.V2)
 	}
+	replayers["C04/element-pairs"] = func(c *Ctx, raw json.RawMessage) string {
+		var cs struct {
+			D        Directive
+			A, B, Ct int
+		}
+		json.Unmarshal(raw, &cs)
+		return c04ElemPair(cs.D, cs.A, cs.B, cs.Ct)
+	}
 	replayers["C04/sprint"] = func(c *Ctx, raw json.RawMessage) string {
 		var cs struct{ Vs []int }
 		json.Unmarshal(raw, &cs)
@@ -146,6 +154,38 @@ func c04Pair(d1, d2 Directive, v1, v2 int) string {
 		return d
 	}
 	return c04Compare(f1+f2+"\n", args) // adjacent directives, then a line feed in the literal
+}
+
+func c04Elems() []interface{} {
+	return []interface{}{0, 7, -3, uint(0), int8(0), uint8(9), 0.0, 2.5, float32(0), "", "s\n" + mStart, true, false, nil, 'x', []byte{}, []byte("ab"),
+		complex(0, 0), complex(1, -2), (*int)(nil), struct{}{}, strT{""}, errT{"e"}, safeT(""), []int{}, []int{0, 1}, map[string]int{}, uintptr(0)}
+}
+
+func c04ElemSpace(quick bool) DirectiveSpace {
+	if quick {
+		return DirectiveSpace{FlagSets: []int{0, 1, 2, 4, 8, 16, 20, 17}, Wids: []int{0, 3}, Precs: []int{0, 2, 3}, Verbs: []rune("vdsxqtcUefgp")}
+	}
+	return DirectiveSpace{FlagSets: seq(32), Wids: []int{0, 1, 3, 6, 7}, Precs: []int{0, 1, 2, 3, 4, 5}, Verbs: []rune("vdsxXqtbcoOUeEfFgGpTz")}
+}
+
+type c04pairT struct{ A, B interface{} }
+
+func c04ElemPair(d Directive, a, b, ct int) string {
+	if d.Verb == 'w' || d.zeroMeetsMinus() {
+		return ""
+	}
+	el := c04Elems()
+	var v interface{}
+	switch ct {
+	case 0:
+		v = []interface{}{el[a], el[b]}
+	case 1:
+		v = c04pairT{el[a], el[b]}
+	default:
+		v = map[string]interface{}{"a": el[a], "b": el[b]}
+	}
+	f, stars := d.Format()
+	return c04Compare(f, append(stars, v))
 }
 
 func c04PairVals() []Val {
@@ -390,6 +430,24 @@ func checkC04(c *Ctx) {
 		w.Eval()
 		if dt := c04Pair(d1, d2, p[0], p[1]); dt != "" {
 			w.Fail("pair", map[string]interface{}{"D1": d1, "D2": d2, "V1": p[0], "V2": p[1]}, dt)
+		}
+		w.Seen(uint64(i))
+	})
+	// two elements of every pair of kinds inside one composite under one directive: the formatter state (flags,
+	// width, precision) the first element leaves behind is what the second is printed with
+	el := c04Elems()
+	es := c04ElemSpace(c.Quick())
+	c.Section("C04/element-pairs", map[string]interface{}{"elements": len(el), "containers": 3, "directives": es.Size()}, es.Size(), func(i int, w *Worker) {
+		d := es.Get(i)
+		for a := range el {
+			for b := range el {
+				for ct := 0; ct < 3; ct++ {
+					w.Eval()
+					if dt := c04ElemPair(d, a, b, ct); dt != "" {
+						w.Fail("element-pair", map[string]interface{}{"D": d, "A": a, "B": b, "Ct": ct}, dt)
+					}
+				}
+			}
 		}
 		w.Seen(uint64(i))
 	})
